@@ -352,3 +352,74 @@ def listing_links(proto, form, body):
     if proto == "wap":
         return [n for n in (num(l["href"].encode("utf-8", "surrogateescape")) for l in V.wml_links(body)) if n is not None]
     return [num(l["href"].encode("ascii", "surrogateescape")) for l in V.gemtext_links(body)]
+
+
+# --------------------------------------------------------------------------------------------------------
+# the logging configuration as part of the world
+# --------------------------------------------------------------------------------------------------------
+LOG_SETUPS = [
+    {"name": "file-utf8-strict", "logmethod": "file", "stream": {"encoding": "utf-8", "errors": "strict"}},          # any UTF-8 locale
+    {"name": "file-ascii-strict", "logmethod": "file", "stream": {"encoding": "ascii", "errors": "strict"}},         # LC_ALL=POSIX, PYTHONIOENCODING=ascii
+    {"name": "file-utf8-surrogateescape", "logmethod": "file", "stream": {"encoding": "utf-8", "errors": "surrogateescape"}},   # LANG=C
+    {"name": "file-latin1-strict", "logmethod": "file", "stream": {"encoding": "latin-1", "errors": "strict"}},
+    {"name": "file-cp1252-strict", "logmethod": "file", "stream": {"encoding": "cp1252", "errors": "strict"}},
+    {"name": "file-utf16-strict", "logmethod": "file", "stream": {"encoding": "utf-16", "errors": "strict"}},
+    {"name": "syslog", "logmethod": "syslog", "stream": None},
+    {"name": "none", "logmethod": "none", "stream": None},
+]
+# Left out on purpose: a sys.stdout without .buffer and a closed sys.stdout -- states of the hosting process, not inputs or
+# histories the property quantifies over (the unchanged code answers nothing there).
+
+
+def logging_world(rng, tier):
+    """-> (tree, requests): requests = list of (bytes, tls, meta) whose selector / search string / raw line is not valid
+    UTF-8, or valid UTF-8 that a narrower charset cannot encode, or plain ASCII -- for objects that exist and for objects
+    that do not, in every protocol syntax."""
+    t = [{"path": "a.txt", "data": "alpha\n"}, {"path": "caf\xe9.txt", "data": "latin-1 name\n"}, {"path": "caf\xc3\xa9.txt", "data": "utf-8 name\n"},
+         {"path": "d\xe9p", "kind": "dir"}, {"path": "d\xe9p/x.txt", "data": "x\n"}, {"path": "dir1", "kind": "dir"},
+         {"path": "dir1/\xff\xfe.bin", "data": "\x00\x01"}, {"path": "dir1/\xe6\xbc\xa2\xe5\xad\x97.txt", "data": "cjk\n"},
+         {"path": "\xe2\x82\xac uro.txt", "data": "euro\n"}, {"path": "win\x85\x93.txt", "data": "c1 bytes\n"},
+         {"path": "mail.mbox", "data": "From a@example.com Mon Jan  1 00:00:00 2024\nSubject: caf\xe9 =?utf-8?q?=FF?=\n\nbody\n"}]
+    for e in t:
+        e["mtime"] = MT
+    hits = [b"/a.txt", b"/caf\xe9.txt", b"/caf\xc3\xa9.txt", b"/d\xe9p", b"/d\xe9p/x.txt", b"/dir1", b"/dir1/\xff\xfe.bin",
+            b"/dir1/\xe6\xbc\xa2\xe5\xad\x97.txt", b"/\xe2\x82\xac uro.txt", b"/win\x85\x93.txt", b"/mail.mbox", b"/mail.mbox|/MBOX-MESSAGE/1", b"/"]
+    misses = [b"/nope", b"/nope\xe9", b"/\xff", b"/nope-\xc3\xa9", b"/\xed\xa0\x80", b"/trunc\xc3", b"/a.txt\x85", b"/d\xe9p/missing\xfe",
+              b"/caf\xe9.txt/below", b"/mail.mbox|/MBOX-MESSAGE/9\xb2", b"/\xf0\x9f\x98\x80", b"/x\x00y", b"/nul\x00\xe9"]
+    misses += [b"/\x00", b"/a.txt\x00", b"/\x00a.txt", b"/dir1/\x00\xff", b"/caf\xe9.txt\x00.gz", b"/mail.mbox|/MBOX-MESSAGE/1\x00"]
+    searches = [None, None, None, b"\xff\xfe", b"caf\xe9", b"\xe2\x82\xac", b"nul\x00here", b"\x00"]
+    out = []
+    for kind, sels in (("hit", hits), ("miss", misses)):
+        for sel in sels:
+            protos = gen.PROTOCOLS if tier != "quick" else ["gopher"] + rng.sample(gen.PROTOCOLS[1:], 4)
+            for proto in protos:
+                s = sel.decode("utf-8", "surrogateescape")
+                sr = rng.choice(searches)
+                data, tls = gen.request_bytes(proto, s, gplus=rng.choice("+!$"), search=None if sr is None else sr.decode("utf-8", "surrogateescape"),
+                                              layers=1, force_encode=rng.random() < 0.2)
+                out.append((data, tls, {"kind": kind, "proto": proto, "selector_latin1": gen.lat(sel), "nul": b"\x00" in data or b"%00" in data}))
+    # lines that are 8-bit where the syntax has no escaping for it
+    for data, tls in [(b"\xff\xfe\r\n", False), (b"\xe9\r\n", True), (b"GET /caf\xe9.txt HTTP/1.0\r\n\r\n", False), (b"GET /nope\xff HTTP/1.0\r\n\r\n", True),
+                      (b"GET /wap/caf\xe9.txt HTTP/1.0\r\n\r\n", False), (b"HEAD /\xe9 HTTP/1.0\r\n\r\n", False), (b"gemini://h\xe9/a.txt\r\n", True),
+                      (b"gemini://gopher.example/caf\xe9.txt\r\n", True), (b"gemini://gopher.example/a.txt?\xff\r\n", True), (b"h\xe9 /a.txt 0\r\n", False),
+                      (b"gopher.example /caf\xe9.txt 0\r\n", False), (b"gopher.example /nope\xe9 3\r\n\xff\xfe\xfd", False), (b"/caf\xe9.txt\t+\r\n", False),
+                      (b"/a.txt\t\xe9\t+\r\n", False), (b"/d\xe9p\t$\r\n", True), (b"/nope\xe9\t!\r\n", False), (b"/a.txt\t+\xe9\r\n", False),
+                      (b"GET /a.txt?searchrequest=\xe9 HTTP/1.0\r\n\r\n", False), (b"GET /a.txt HTTP/1.0\r\nAccept: \xe9, text/vnd.wap.wml\r\nX-Wap-Profile: \xff\r\n\r\n", False),
+                      (b"/URL:http://h/\xe9\r\n", False), (b"/1/d\xe9p\r\n", False),
+                      (b"\x00\r\n", False), (b"\x00\x00\xff\r\n", True), (b"GET /a.txt\x00 HTTP/1.0\r\n\r\n", False), (b"GET /a%00b?searchrequest=%00 HTTP/1.0\r\n\r\n", True),
+                      (b"GET /wap/\x00 HTTP/1.0\r\n\r\n", False), (b"gemini://gopher.example/a.txt%00\r\n", True), (b"gemini://h\x00/a.txt\r\n", True),
+                      (b"gemini://gopher.example/a.txt?%00\r\n", True), (b"gopher.example /a.txt\x00 0\r\n", False), (b"gopher.example /%00 0\r\n", False),
+                      (b"/a.txt\t\x00\t+\r\n", False), (b"/dir1\x00\t$\r\n", False), (b"/a.txt\x00\t!\r\n", True), (b"/URL:http://h/\x00\r\n", False),
+                      (b"/mail.mbox|/MBOX-MESSAGE/\x001\r\n", False)]:
+        out.append((data, tls, {"kind": "raw", "proto": None, "selector_latin1": None, "nul": False}))
+    for _ in range(10 if tier == "quick" else 80):
+        raw = bytes(rng.choice([rng.randrange(0x80, 0x100), rng.randrange(0x20, 0x7f)]) for _ in range(rng.randrange(1, 24)))
+        out.append((rng.choice([b"/", b"", b"GET /", b"gemini://h/"]) + raw + rng.choice([b"\r\n", b" HTTP/1.0\r\n\r\n"]), rng.random() < 0.4,
+                    {"kind": "random", "proto": None, "selector_latin1": None, "nul": False}))
+    return t, out
+
+
+def record_site(rec):
+    """the '[Protocol/Handler]' part of a log record (str), None if there is none"""
+    m = re.search(r"\[(\w+)/(\w+)\]", rec)
+    return m.group(0) if m else None
